@@ -2,8 +2,10 @@
 
 Decided: theta / theta-tilde typestate at the transform call sites, agreement of the case
 encoding in the three transform helpers, the proposal path, polarity of the MH log-ratio and
-the acceptance test, rejection without simulation, argument roles of the likelihood calls.
-Not decided: estimator formulas, Jacobian branch formulas (needs a CAS).
+the acceptance test, rejection without simulation, argument roles of the likelihood calls,
+transform inversion and Jacobian per bound type and the unbiased-estimator formula (exact
+rational-function / log-linear normal forms, sa/ratfun.py), whitening convention, scale typestate.
+Not decided: the semi-parametric likelihood, the Warton / glasso estimators (library code).
 """
 
 import ast
